@@ -269,10 +269,16 @@ def two_threads(res, retrying, tier):
     for attempts in (1, 2):
         for sa, sb in scripts:
             sa, sb = sa[:attempts], sb[:attempts]
-            stack = [({}, 0)]
+            import heapq
+            stack = [(0, 0, {})]          # fewest preemptions first
+            tick = [0]
+
+            def push(f_, u_):
+                tick[0] += 1
+                heapq.heappush(stack, (u_, tick[0], f_))
             executed = 0
             while stack and executed < (400 if tier == "quick" else 4000):
-                forced, used = stack.pop()
+                used, _, forced = heapq.heappop(stack)
                 sch = S.Sched(2, forced)
                 inners, outs = [], {}
                 events = {0: [], 1: []}
@@ -337,7 +343,8 @@ def two_threads(res, retrying, tier):
                 for (i, me, run, kind) in sch.trace:
                     if i == "start":
                         if not forced:
-                            stack.extend(({"start": t}, used) for t in run[1:])
+                            for t in run[1:]:
+                                push({"start": t}, used)
                         continue
                     if i <= last:
                         continue
@@ -345,13 +352,13 @@ def two_threads(res, retrying, tier):
                         for t in run[1:]:
                             f = dict(forced)
                             f[i] = t
-                            stack.append((f, used))
+                            push(f, used)
                     elif used < P:
                         for t in run:
                             if t != me:
                                 f = dict(forced)
                                 f[i] = t
-                                stack.append((f, used + 1))
+                                push(f, used + 1)
 
 
 def invalid_configs(res, retrying):
